@@ -6,6 +6,7 @@ mod c04;
 mod c04m;
 mod c05;
 mod c06;
+mod c06h;
 mod c07;
 mod c08;
 mod c08a;
@@ -83,6 +84,7 @@ fn main() {
         "c03" => c03::main(rest),
         "c04" => c04::main(rest),
         "c04m" => c04m::main(rest),
+        "c06h" => c06h::main(rest),
         "c05" => c05::main(rest),
         "consts" => consts::main(rest),
         "c06" => c06::main(rest),
